@@ -6,4 +6,5 @@ export GOFLAGS=-mod=mod GOPROXY=off GOSUMDB=off GOTOOLCHAIN=local
 mkdir -p .build evidence replays work
 (cd lean && lake build 2>&1 | tail -3)
 (cd harness && cp /repo/go.sum go.sum && go build -o ../.build/harness . )
+(cd extract && go build -o ../.build/extract . )
 echo setup-ok
